@@ -259,6 +259,7 @@ func reportProperty(e *Engine, o runOpts, res *propResult) int {
 	var failed []*Obligation
 	known := 0
 	bySolver := map[string]int{}
+	twoAgree := 0
 	solverTime := 0.0
 	vacChecked, vacuous, deadSites := 0, 0, 0
 	for _, m := range vacuityReport(res.obls) {
@@ -289,6 +290,9 @@ func reportProperty(e *Engine, o runOpts, res *propResult) int {
 			if !ob.Trivial {
 				nontrivial++
 				bySolver[strings.SplitN(strings.TrimSuffix(ob.Solver, "(cached)"), "+", 2)[0]]++
+				if strings.Contains(ob.Solver, "+") {
+					twoAgree++
+				}
 			}
 			if len(samples) < 6 && !ob.Trivial {
 				samples = append(samples, map[string]any{"obligation": ob.Name, "kind": ob.Kind, "at": ob.Pos, "goal": truncate(ob.Goal.S, 400), "answer": "unsat", "solver": ob.Solver})
@@ -368,6 +372,7 @@ func reportProperty(e *Engine, o runOpts, res *propResult) int {
 		"functions_under_contract": res.funcs,
 		"lemmas":                 res.lemmaCnt,
 		"discharged_by_solver":   bySolver,
+		"two_solver_agreement":   twoAgree,
 		"solver_time_s":          solverTime,
 		"solver_queries":         res.pool.queries,
 		"cache_hits":             res.pool.cached,
